@@ -121,3 +121,48 @@ theorem C08_integer_cell_text (n : Int) :
   ⟨Props.C03.C03_int32_exact n, Props.C03.C03_int64_exact n, Props.C03.C03_uint32_exact n, Props.C03.C03_uint64_exact n⟩
 
 end TableauVerif.Props.C08
+
+namespace TableauVerif.Props.C08
+open TableauVerif TableauVerif.Model.TableParser TableauVerif.Model
+
+/-- `k` blank data lines after the sheet's data lines (what a rectangular CSV export keeps and the XLSX reader
+drops) -/
+def padRows (k : Nat) (cols : Cols) : Cols := cols.map (fun c => (c.1, c.2 ++ List.replicate k ([] : Str)))
+
+theorem padRows_succ (k n : Nat) (cols : Cols) (hrect : ∀ c ∈ cols, c.2.length = n) :
+    padRows (k + 1) cols = Props.C10.insertLine (n + k) (fun _ => []) (padRows k cols) := by
+  unfold padRows Props.C10.insertLine
+  simp only [List.map_map]
+  apply List.map_congr_left
+  intro c hc
+  have hl : (c.2 ++ List.replicate k ([] : Str)).length = n + k := by simp [hrect c hc]
+  simp only [Function.comp, Props.C10.insertAt]
+  rw [List.take_of_length_le (by omega), List.drop_of_length_le (by omega)]
+  simp [List.replicate_succ', List.append_assoc]
+
+/-- **C08_confgen_trailing_blank_rows**: any number of blank data lines after the data leaves the outcome
+unchanged, whatever field properties the schema carries (true since fix D35) -/
+theorem C08_confgen_trailing_blank_rows (c : Ctx) (fields : List TField) (cols : Cols) (n first : Nat) (t : Bool) (k : Nat)
+    (hrect : ∀ c ∈ cols, c.2.length = n) :
+    (parseCols c fields (padRows k cols) (n + k) first t).core = (parseCols c fields cols n first t).core := by
+  induction k with
+  | zero =>
+    have : padRows 0 cols = cols := by
+      unfold padRows
+      conv => rhs; rw [← List.map_id cols]
+      apply List.map_congr_left
+      intro c _; simp
+    simp [this]
+  | succ k ih =>
+    rw [padRows_succ k n cols hrect]
+    have hrect' : ∀ c ∈ padRows k cols, c.2.length = n + k := by
+      intro c hc
+      simp only [padRows, List.mem_map] at hc
+      obtain ⟨c0, hc0, rfl⟩ := hc
+      simp [hrect c0 hc0]
+    have := Props.C10.C10c_rows_sheet c fields (padRows k cols) first t (n + k) (n + k) (fun _ => []) hrect' (Nat.le_refl _)
+      (fun _ _ _ => rfl)
+    rw [show n + (k + 1) = n + k + 1 by omega, this]
+    exact ih
+
+end TableauVerif.Props.C08
